@@ -5,7 +5,8 @@
 (*        an encrypted datagram that n authenticated under its tunnel with s                                     *)
 (*  {"ev":"Local","n":"A","recs":[...],"tuns":[...]}   anything else (inside packet, handshake datagram, timer,  *)
 (*        tunnel closed): relay records may only follow tunnel loss or the node starting its own relays          *)
-(*  recs = all relay records of n after the step: {peer, addr, type, state, lidx, ridx}                          *)
+(*  recs = all relay records of n after the step: {peer, tun, addr, type, state, lidx, ridx}                     *)
+(*  live = the tunnels (by local index name) n holds after the step; ridx = HostMap.Relays as [index, tunnel]       *)
 EXTENDS Relay, Json
 
 Log == ndJsonDeserialize("trace.ndjson")
@@ -16,15 +17,17 @@ SetOfSeq(s) == {s[i] : i \in 1..Len(s)}
 TraceInit == Init /\ l = 1
 IsEvent(e) == l <= Len(Log) /\ Log[l].ev = e /\ l' = l + 1
 
-TraceReset == IsEvent("reset") /\ recs' = [n \in Nodes |-> {}] /\ tuns' = [n \in Nodes |-> {}]
+TraceReset == IsEvent("reset") /\ recs' = [n \in Nodes |-> {}] /\ tuns' = [n \in Nodes |-> {}] /\ ridx' = [n \in Nodes |-> {}]
+\* "ridx":[[index, tunnel],..] = HostMap.Relays after the step (tunnel 0: the index leads to a tunnel the node no longer holds)
+Ridx(e) == {<<x[1], x[2]>> : x \in SetOfSeq(e.ridx)}
 
 TraceRecv == /\ IsEvent("Recv")
              /\ LET e == Log[l] IN
-                /\ Recv(e.n, e.s, e.typ, SetOfSeq(e.recs), SetOfSeq(e.fwd), SetOfSeq(e.tuns))
+                /\ Recv(e.n, e.s, e.typ, SetOfSeq(e.recs), SetOfSeq(e.fwd), SetOfSeq(e.tuns), Ridx(e))
 
 \* a close message is a tunnel loss and is logged as Local
 TraceLocal == /\ IsEvent("Local")
-              /\ LET e == Log[l] IN Local(e.n, SetOfSeq(e.recs), SetOfSeq(e.tuns))
+              /\ LET e == Log[l] IN Local(e.n, SetOfSeq(e.recs), SetOfSeq(e.tuns), Ridx(e), LAMBDA r : r.tun \in SetOfSeq(e.live))
 
 TraceNext == TraceReset \/ TraceRecv \/ TraceLocal
 TraceSpec == TraceInit /\ [][TraceNext]_tvars
